@@ -41,11 +41,15 @@ IriOf(id) == CASE id = "i1" -> "http://a.b/c#d"
                [] id = "i3" -> "http://a.b/p_q"
                [] OTHER -> "http://u.v/dt#t"
 BnodeOf(id) == CASE id = "b1" -> "_:b1" [] id = "b3" -> "_:n.1.z" [] OTHER -> "_:x_2"      \* a label may contain '.', not end with it
+\* a datatype is an IRI like any other: its scheme may be spelled like one of the prefixes the library knows by heart
+\* (geo:, xsd:, dt:, rdf: are legal - for geo: even registered - URI schemes); between angle brackets nothing is a prefix
+DtIri(sf) == CASE sf = "dtgeo" -> "geo:wkt" [] sf = "dtxsd" -> "xsd:int" [] sf = "dtdt" -> "dt:sec" [] sf = "dtrdf" -> "rdf:HTML"
+               [] OTHER -> IriOf("dt")
 SuffixChars(sf) == CASE sf = "none" -> <<>>
                      [] sf = "lang" -> <<"@", "e", "n">>
                      [] sf = "langreg" -> <<"@", "e", "n", "-", "G", "B">>
                      [] sf = "langnum" -> <<"@", "e", "s", "-", "4", "1", "9">>          \* subtags after the first may hold digits
-                     [] sf = "dt" -> <<"^", "^", "<">> \o Chars(IriOf("dt")) \o <<">">>
+                     [] OTHER -> <<"^", "^", "<">> \o Chars(DtIri(sf)) \o <<">">>
 TermChars(t) == CASE t.kind = "iri" -> <<"<">> \o Chars(IriOf(t.id)) \o <<">">>
                   [] t.kind = "bnode" -> Chars(BnodeOf(t.id))
                   [] t.kind = "lit" -> <<"\"">> \o Flat(t.content) \o <<"\"">> \o SuffixChars(t.suffix)
@@ -58,13 +62,13 @@ AbsTerm(t) == CASE t.kind = "iri" -> <<"IRI", IriOf(t.id)>>
                 [] t.kind = "bnode" -> <<"BNode", BnodeOf(t.id)>>
                 [] t.kind = "lit" -> <<CASE t.suffix = "none" -> XSD_STRING
                                          [] t.suffix \in {"lang", "langreg", "langnum"} -> LANG_STRING
-                                         [] OTHER -> IriOf("dt"), "">>
+                                         [] OTHER -> DtIri(t.suffix), "">>
 Abstract(x) == <<AbsTerm(x.s), IriOf(x.p), AbsTerm(x.o)>>
 Lit(content, suffix) == [kind |-> "lit", id |-> "", content |-> content, suffix |-> suffix]
 Node(kind, id) == [kind |-> kind, id |-> id, content |-> <<>>, suffix |-> "none"]
 Subjects == {Node("iri", "i1"), Node("iri", "i2"), Node("bnode", "b1"), Node("bnode", "b3")}
 NodeObjects == {Node("iri", "i2"), Node("bnode", "b2"), Node("bnode", "b3")}
-LitSuffixes == {"none", "lang", "langreg", "langnum", "dt"}
+LitSuffixes == {"none", "lang", "langreg", "langnum", "dt", "dtgeo", "dtxsd", "dtdt", "dtrdf"}
 
 \* ---------------------------------------------------------------- string helpers
 At(s, i) == IF i >= 0 /\ i < Len(s) THEN s[i + 1] ELSE "IndexError"        \* s[i], 0-based
